@@ -10,7 +10,7 @@
                         uses (HACKING.d/unicodewidth.md: why the two agree for every x below 2^49);
                         no theorem depends on it. *)
 From Coq Require Import NArith List.
-From AV Require Import Model.Base Model.UnicodeWidth Generated.UnicodeWidthFn Generated.Svg Model.Svg.
+From AV Require Import Model.Base Model.UnicodeWidth Generated.UnicodeWidthFn Generated.Palette Spec.Sgr Spec.Lossy Generated.Svg Model.Svg.
 Import ListNotations.
 Local Open Scope N_scope.
 
@@ -30,5 +30,14 @@ Definition svg_tf_uw_oracle (ceil84 : N -> N) (t : svg_term_full) : svg_oracle :
 
 (* the printer with the background fills computed, and render_svg's width attribute with the widths computed *)
 Definition svg_m_print_uw (width_px : N) (d : svg_document) : list N := svg_print width_px uw_width d.
-Definition svg_m_width_px_uw (ceil84 : N -> N) (min_width : N) (styled_lines : list (list (Spec.Sgr.sstyle * list N))) : N :=
+Definition svg_m_width_px_uw (ceil84 : N -> N) (min_width : N) (styled_lines : list (list (sstyle * list N))) : N :=
   svg_width_px (svg_uw_oracle ceil84 min_width) styled_lines.
+
+(* correspondence entry point of case kind svgraw: the whole rendering with NO quantity read off the real output --
+   widths from the translated unicode-width, the f64 product as ceil(42 x / 5), the minimal width as configured *)
+Definition svg_m_render_uw (palette : list rgb) (fg bg : colour) (background : bool) (min_width : N)
+    (input : list N) : option (list N) :=
+  let t := mkSvgTerm palette fg bg background in
+  styled <- svg_styled t input ;;
+  d <- svg_doc t input ;;
+  Some (svg_m_print_uw (svg_m_width_px_uw svg_ceil84_exact min_width (svg_split_lines styled)) d).
